@@ -115,6 +115,15 @@ claim("C13",
       "folding of the pair stream, transitivity over whole compounds; invariant assumed: no Str cell "
       "is './2'.",
       K + " + " + M, "DESIGN.md §4 C13", engine="kani+mirsmt")
+claim("C14",
+      "M: the Rust kernels of sort/2 and keysort/2. From the MIR of MachineState::sort / keysort and "
+      "their closures: sort orders by compare_term_test(*v1, *v2) (operands in order, incomparable = "
+      "Less), removes exactly the neighbours that compare Equal, builds the list front to back; keysort "
+      "uses the stable slice sort, compares the keys (.0) in order and returns the elements (.1); the "
+      "list reader continues as a list after a leading string (F12).",
+      "std's sort/dedup contracts and the standard order (C13) are assumed; the collection libraries "
+      "(lists, ordsets, assoc, pairs: Prolog source) and the error checks are outside.",
+      M, "DESIGN.md §4 C14", engine="mirsmt")
 claim("C18",
       "K: one CharReader operation from every reader state (buf.len <= 8, pos, next chunk <= 4 "
       "then EOF) with all bytes symbolic: result = RFC 3629 decoding of the unread bytes ++ "
@@ -161,7 +170,6 @@ NOT_APPLICABLE = {
     "C07": "whole compiler + VM; needs a booted Machine; no unit smaller than 'compile and run' carries the property; symbolic execution of the WAM on a symbolic program fits no meaningful bound",
     "C08": "the same pipeline three ways plus the Prolog-level call/N dispatcher; needs a booted Machine",
     "C12": "catch/throw/setup_call_cleanup are Prolog-level over machine-level stack unwinding",
-    "C14": "sort/keysort = std sort over compare_term_test (heap iterators + IndexSet); lists/assoc/ordsets/pairs are Prolog source executed by the WAM",
     "C15": "printer (HCPrinter: heap iterators + op-table IndexMap) composed with parser (Lexer/Parser bound to &mut MachineState); the token-level decisions are claimed as C55",
     "C16": "number lexing lives in Lexer methods on &mut MachineState (ICE/OOM in Kani); float text<->binary is lexical/ryu (multi-word multiplication loops)",
     "C17": "same entry points as C16 (Lexer, Parser, read_term): need MachineState",
